@@ -24,6 +24,7 @@
 #include <sys/socket.h>
 #include <sys/mman.h>
 #include <netdb.h>
+#include <pthread.h>
 
 static int g_logfd = -1;
 static volatile int g_mark = -1;
@@ -35,6 +36,8 @@ int __real_open(const char *p, int fl, ...);
 
 /* set by every logged call that can touch the file system / environment / cwd; c18/restore rebuilds the marker files only
  * then (and every 64th time regardless): ~30 syscalls per call of a core binding were most of the sweep's run time */
+static pthread_t g_sweeper;
+static volatile int g_have_sweeper = 0;
 static volatile int g_dirty = 1;
 static int g_restores = 0;
 
@@ -50,7 +53,11 @@ static void logcall(const char *name, const char *fmt, ...) {
     for (char *c = det; *c; c++) if (*c == '\n' || *c == '\t') *c = ' ';
     int vm = janet_vm.cache != NULL;
     uint32_t fl = vm ? janet_vm.sandbox_flags : g_main_flags;
-    int n = snprintf(buf, sizeof buf, "%d\t%s\t%x\t%s\t%s\n", g_mark, vm ? "vm" : "novm", fl, name, det);
+    /* "vm" = the thread that runs the sweep (the one that calls c18/mark; in the thread modes that IS the thread started after
+     * sandboxing); "vm2" = any other janet thread (started by a binding under test; its start-up runs with word 0 until the
+     * parent's word is copied in); "novm" = worker threads without a VM */
+    const char *who = !vm ? "novm" : (g_have_sweeper && pthread_equal(pthread_self(), g_sweeper)) ? "vm" : "vm2";
+    int n = snprintf(buf, sizeof buf, "%d\t%s\t%x\t%s\t%s\n", g_mark, who, fl, name, det);
     int e = errno;
     if (write(g_logfd, buf, n) < 0) {}
     errno = e;
@@ -102,6 +109,8 @@ int __real_inotify_add_watch(int fd, const char *p, uint32_t m); int __wrap_inot
 /* ---- helpers callable from the script ---- */
 static Janet c18_mark(int32_t argc, Janet *argv) {
     janet_fixarity(argc, 2);
+    g_sweeper = pthread_self();
+    g_have_sweeper = 1;
     g_mark = janet_getinteger(argv, 0);
     g_main_flags = janet_vm.sandbox_flags;
     logcall("MARK", "%s", (const char *) janet_getstring(argv, 1));
